@@ -1,7 +1,54 @@
-(* placeholder until the codec theorems land *)
+(* C08 - unregistered users are indistinguishable from registered ones.  Statements only.
+   Proved: same length and structure; the evaluation is the same function of (seed, credential identifier,
+   request) as for a registered user; the fake record is (fresh masking key copied from the tape, all-zero
+   envelope, the setup's fake public key); the remaining fields are read from the same tape ranges as in
+   the real path (C17); no string other than the one HMAC completes the server side (C03).
+   The client's InvalidLogin on a fake response is validated by the battery (it rests on the client not
+   guessing the fake-key seed: a BadGuess event, DESIGN.md 2.2). *)
 From Coq Require Import List.
-From OKE Require Import BytesLemmas.
-Theorem C08_placeholder : forall l x y px py r1 r2,
-  Bytes.lenprefix l x = Some px -> Bytes.lenprefix l y = Some py -> px ++ r1 = py ++ r2 -> x = y /\ r1 = r2.
-Proof. exact lenprefix_inj. Qed.
-Print Assumptions C08_placeholder.
+From OKE Require Import Bytes Suite Generated Voprf Messages Envelope TripleDH Opaque Laws Accept TapeLayout Shape.
+
+Theorem C08_same_length_and_structure :
+  forall E Sc Pk Sk (CS : Suite E Sc Pk Sk), HashLaws (hash CS) -> GroupLaws CS ->
+  forall tape (setup : ServerSetup Pk Sk Sk) file rq cred ctx ids st resp rest dbg,
+    server_login_start CS (private_key_ops (ke CS)) tape setup file rq cred ctx ids = Ok (st, resp, rest, dbg) ->
+    ve CS (cq_blinded rq) -> vk CS (kp_sk (ss_keypair setup)) ->
+    (forall f, file = Some f -> envelope_has_length CS (ru_envelope f)) ->
+    length (credential_response_serialize CS resp) = credential_response_len CS.
+Proof. exact @response_length. Qed.
+Print Assumptions C08_same_length_and_structure.
+
+Theorem C08_same_evaluation :
+  forall E Sc Pk Sk (CS : Suite E Sc Pk Sk) S (SK : SkOps Pk S) tape (setup : ServerSetup Pk Sk S) file rq cred ctx ids st resp rest dbg,
+    server_login_start CS SK tape setup file rq cred ctx ids = Ok (st, resp, rest, dbg) ->
+    server_evaluate CS (ss_oprf_seed setup) cred (cq_blinded rq) = Ok (cr_eval resp).
+Proof. exact @login_start_evaluation. Qed.
+Print Assumptions C08_same_evaluation.
+
+Theorem C08_fake_record :
+  forall E Sc Pk Sk (CS : Suite E Sc Pk Sk) tape S (setup : ServerSetup Pk Sk S) rec rest,
+    registration_upload_dummy CS tape setup = Ok (rec, rest) ->
+    tape = ru_masking_key rec ++ rest /\ length (ru_masking_key rec) = h_len (hash CS) /\
+    ru_client_s_pk rec = kp_pk (ss_fake_keypair setup) /\ ru_envelope rec = envelope_dummy CS.
+Proof. exact @fake_masking_key_is_tape. Qed.
+Print Assumptions C08_fake_record.
+
+Theorem C08_fields_from_fresh_tape_ranges :
+  forall E Sc Pk Sk (CS : Suite E Sc Pk Sk) S (SK : SkOps Pk S) tape setup file rq cred ctx ids st resp rest dbg,
+    server_login_start CS SK tape setup file rq cred ctx ids = Ok (st, resp, rest, dbg) ->
+    exists fmk eseed,
+      tape = fmk ++ cr_masking_nonce resp ++ eseed ++ k2_nonce (cr_ke2 resp) ++ rest /\
+      length fmk = (match file with Some _ => 0 | None => h_len (hash CS) end) /\
+      length (cr_masking_nonce resp) = KE_NONCE_LEN /\ length eseed = k_Nsk (ke CS) /\
+      length (k2_nonce (cr_ke2 resp)) = KE_NONCE_LEN /\
+      (exists esk, k_derive (ke CS) (hash CS) (o_id (oprf CS)) eseed = Some esk /\
+                   k2_server_e_pk (cr_ke2 resp) = k_pub (ke CS) esk).
+Proof. exact @server_login_start_layout. Qed.
+Print Assumptions C08_fields_from_fresh_tape_ranges.
+
+Theorem C08_no_other_finalization :
+  forall E Sc Pk Sk (CS : Suite E Sc Pk Sk) st m,
+    cf_mac m <> h_hmac (hash CS) (sl_km3 st) (sl_hashed_transcript st) ->
+    server_login_finish CS st m = Err EInvalidLogin.
+Proof. exact @server_finish_reject. Qed.
+Print Assumptions C08_no_other_finalization.
